@@ -14,6 +14,7 @@ import (
 	"verif/engine/sched"
 	"verif/engine/vs"
 	"verif/harness/enc"
+	"verif/harness/fakenet"
 	"verif/harness/refmeta"
 	"verif/harness/refwire"
 	"verif/harness/tr"
@@ -179,6 +180,63 @@ type handlerFunc func(stream drpc.Stream, rpc string) error
 
 func (f handlerFunc) HandleRPC(stream drpc.Stream, rpc string) error { return f(stream, rpc) }
 
+// statsScenario: one Server with statistics collection serves several connections at once; every
+// peer invokes rpc names of its own choosing (the server keeps per-name state keyed by what peers
+// send). Nothing may panic or hang; the free-running race pass looks at the shared state.
+func statsScenario(nconn int) *mc.Scenario {
+	name := fmt.Sprintf("peer-chosen-rpc-names[%d connections on one Server with CollectStats]", nconn)
+	body := func() {
+		st := &state{}
+		sched.Cur().State()["st"] = st
+		lis := &fakenet.Listener{}
+		srv := drpcserver.NewWithOptions(handlerFunc(func(stream drpc.Stream, rpc string) error { return wl.Echo(stream, rpc) }), drpcserver.Options{CollectStats: true})
+		ctx, cancel := context.WithCancel(context.Background())
+		var ends []*tr.End
+		for i := 0; i < nconn; i++ {
+			c, s := tr.New(fmt.Sprintf("cli%d", i), fmt.Sprintf("srv%d", i), tr.Options{Cap: -1})
+			var wire []byte
+			for k := 0; k < 2; k++ {
+				sid := uint64(k + 1)
+				rpc := fmt.Sprintf("/peer%d/rpc%d", i, k)
+				wire = refwire.Append(wire, refwire.Frame{Data: []byte(rpc), ID: refwire.ID{Stream: sid, Message: 1}, Kind: 1, Done: true})
+				wire = refwire.Append(wire, refwire.Frame{Data: []byte("m"), ID: refwire.ID{Stream: sid, Message: 2}, Kind: 2, Done: true})
+				wire = refwire.Append(wire, refwire.Frame{ID: refwire.ID{Stream: sid, Message: 3}, Kind: 5, Done: true})
+			}
+			s.InjectInit(wire)
+			lis.Push(fakenet.Conn{End: s})
+			ends = append(ends, c)
+		}
+		served := false
+		vs.Go("serve", func() { _ = srv.Serve(ctx, lis); served = true })
+		vs.Go("stats-reader", func() { _ = srv.Stats() })
+		sched.Quiesce()
+		_ = srv.Stats()
+		wl.Cancel(cancel)
+		for _, c := range ends {
+			c.EnvClose()
+		}
+		sched.Quiesce()
+		if !served {
+			st.fails = append(st.fails, "Serve did not return after its context was cancelled and the peers disconnected; blocked="+wl.BlockedSummary(sched.BlockedNow()))
+		}
+		if lib := wl.LibBlocked(sched.BlockedNow()); len(lib) > 0 {
+			st.fails = append(st.fails, "library goroutines left behind: "+wl.BlockedSummary(lib))
+		}
+		sched.Observef("served=%v", served)
+	}
+	check := func(e *sched.Exec) string {
+		st, _ := e.State()["st"].(*state)
+		if len(e.Panics) > 0 {
+			return "panic: " + e.Panics[0]
+		}
+		if st != nil && len(st.fails) > 0 {
+			return st.fails[0]
+		}
+		return ""
+	}
+	return &mc.Scenario{Name: name, Body: body, Check: check, Model: sched.Deviation, NoCache: true}
+}
+
 func plans(tier string) []mc.Plan {
 	var ps []mc.Plan
 	for _, role := range []string{"server", "client"} {
@@ -191,6 +249,7 @@ func plans(tier string) []mc.Plan {
 			ps = append(ps, mc.Plan{Scen: scenario(role, false, 2), Bounds: []int{1}, Split: true})
 		}
 	}
+	ps = append(ps, mc.Plan{Scen: statsScenario(2), Bounds: []int{0, 1}}, mc.Plan{Scen: statsScenario(3), Bounds: []int{0}})
 	return ps
 }
 
